@@ -9,7 +9,7 @@ open Anything Anything.Parser Anything.Grammar Anything.PTotal Anything.Spec.Ari
 
 /-- The shape of the parsed forest: blank leaves, one tree, blank leaves. -/
 def ForestOK (forest : List Tree) (e : NExpr) : Prop :=
-  ∃ Wt x Wt', forest = Wt ++ [x] ++ Wt' ∧ WSTrees Wt ∧ WSTrees Wt' ∧ Represents x e
+  ∃ Wt x Wt', forest = Wt ++ [x] ++ Wt' ∧ WSTrees Wt ∧ WSTrees Wt' ∧ RepresentsL x e
 
 theorem headKind_toks_start (e : NExpr) (ws : Layout) (K : List Token) :
     (headKind (toks e ws ++ K) == Syntax.EOF) = false ∧
@@ -77,7 +77,7 @@ theorem queryLoop_ws (cfg : Cfg) (W : List Tree) (hW : WSTrees W) (rest : List T
     exact ⟨off', fun d => by simp only [List.cons_append, kidsAt, queryLoop, Tree.kind,
       beq_self_eq_true, ↓reduceIte, h]⟩
 
-theorem represents_kind {x : Tree} {e : NExpr} (h : Represents x e) :
+theorem represents_kind {x : Tree} {e : NExpr} (h : RepresentsL x e) :
     (x.kind == Syntax.WHITESPACE) = false := by
   cases h with
   | num hk _ _ _ => rw [hk]; rfl
@@ -108,7 +108,7 @@ theorem query_render (cfg : Cfg) (e : NExpr) (ws : Layout) (hwf : Spec.Arith.WF 
   simp only [List.singleton_append, kidsAt, queryLoop, represents_kind hx, Bool.false_eq_true,
     ↓reduceIte]
   obtain ⟨off2, h2⟩ := queryLoop_ws cfg Wt' hWt' [] (off + x.len)
-  have hev := evalOK_all cfg (2 * size x + 2) x e off [] (by omega) hx hlit hro
+  have hev := evalOK_all cfg (2 * size x + 2) x e off [] (by omega) (repL_to_rep hx) hlit hro
   cases hd : denote e with
   | ok v =>
     rw [hd] at hev
@@ -128,7 +128,7 @@ theorem query_render (cfg : Cfg) (e : NExpr) (ws : Layout) (hwf : Spec.Arith.WF 
 
 /-- The single non-blank child of the parsed forest. -/
 theorem forestOK_filter {forest : List Tree} {e : NExpr} (h : ForestOK forest e) :
-    ∃ x, forest.filter (fun t => t.kind != .WHITESPACE) = [x] ∧ Represents x e := by
+    ∃ x, forest.filter (fun t => t.kind != .WHITESPACE) = [x] ∧ RepresentsL x e := by
   obtain ⟨Wt, x, Wt', hf, hWt, hWt', hx⟩ := h
   have hws : ∀ W : List Tree, WSTrees W → W.filter (fun t => t.kind != .WHITESPACE) = [] := by
     intro W hW
